@@ -32,7 +32,7 @@ func init() {
 	register(&Prop{
 		ID:  "C08",
 		Run: runC08,
-		Rule: "one case = (probe recipe: encoder, derived context, field family incl. reflected values, errors, arrays, open namespaces, optional caller and stack trace at a drawn depth below or above the pooled 64-frame capacity; history: 4-30 operations drawn from small and large entries, namespaces left open, reflected values, marshalers failing half-way, error arrays, deep stack captures, console entries, With clones, sugared bad-argument entries, on other loggers and on the probe logger, by the probe task and 0-2 concurrent tasks; pool policy LIFO/FIFO/random with optional capacity; GC drop events) under one seeded schedule; " +
+		Rule: "one case = (probe recipe: encoder, derived context, field family incl. reflected values, errors, arrays, open namespaces, optional caller and stack trace at a drawn depth below or above the pooled 64-frame capacity; history: 4-30 operations drawn from small and large entries, namespaces left open, reflected values, marshalers failing half-way, error arrays, deep stack captures, console entries, With clones, sugared bad-argument entries, log calls whose user marshaler panics (recovered by the caller), on other loggers and on the probe logger, by the probe task and 0-2 concurrent tasks; pool policy LIFO/FIFO/random with optional capacity; GC drop events) under one seeded schedule; " +
 			"non-trivial = at least 2 repeated probes and at least 4 history operations ran; distinct = distinct hash of (probe recipe, history, scheduling decisions)",
 		Real: []string{"JSON and console encoders (getJSONEncoder/putJSONEncoder, clone, reflection buffer, slice encoder)", "buffer pool, CheckedEntry pool, error-array element pools, stack pool (internal/stacktrace)", "ioCore.Write buffer ownership, Logger.check"},
 		Stub: []string{"sync.Pool (simsync.Pool: fresh for the reference, then LIFO/FIFO/random with poison, fingerprints and drop events)", "sinks", "clock (fixed)"},
@@ -184,6 +184,21 @@ func (w *c8world) history(kind, a int, lg *zap.Logger) {
 			w.failing.Error("with a reflected field to a failing device", zap.Reflect("r", c8refl{a, "f", nil}))
 		}
 		w.failWant++
+	case 17:
+		// a log call that panics half-way through encoding (namespaces open,
+		// encoders and buffers borrowed from the pools) and is recovered by the
+		// application
+		func() {
+			defer func() { _ = recover() }()
+			switch a % 3 {
+			case 0:
+				lg.Info("panics while encoding", zap.Namespace("pn1"), zap.Namespace("pn2"), zap.Array("boom", c8panicArr{}))
+			case 1:
+				lg.With(zap.Namespace("ctxns")).Info("panics while encoding", zap.Int("before", a), zap.Inline(c8panicObj{}))
+			default:
+				lg.Info("panics while encoding", zap.Namespace("pn"), zap.Object("o", c8panicObj{}), zap.Int("after", a))
+			}
+		}()
 	case 16:
 		// the same failing device, but reached without a Logger (as the slog
 		// handler and other direct users of Core.Check/CheckedEntry.Write do):
@@ -219,7 +234,18 @@ type c8hook struct{ w *c8world }
 
 func (h c8hook) OnWrite(*zapcore.CheckedEntry, []zapcore.Field) { h.w.hookGot++ }
 
-const c8kinds = 17
+const c8kinds = 18
+
+// c8panicArr: a user marshaler with a bug. zap does not contain panics of
+// object and array marshalers; the application (an HTTP server, say) recovers
+// and carries on logging.
+type c8panicArr struct{}
+
+func (c8panicArr) MarshalLogArray(zapcore.ArrayEncoder) error { panic("c8: marshaler bug") }
+
+type c8panicObj struct{}
+
+func (c8panicObj) MarshalLogObject(zapcore.ObjectEncoder) error { panic("c8: marshaler bug") }
 
 func runC08(c *Ctx) {
 	g, r := c.G, c.R
